@@ -193,6 +193,18 @@ Theorem C15_fix_keeps_unique_node :
 Proof. exact pass_keeps_unique_node. Qed.
 Print Assumptions C15_fix_keeps_unique_node.
 
+(* the disjointness hypothesis is needed on the code as it exists: a function body that reads an initializer of
+   the main graph (not valid ONNX).  Known finding. *)
+Theorem C15_fix_keeps_unique_shared_refuted :
+  exists main funcs vn nn inits others v nm,
+  let r := name_fix_pass main funcs (fun _ => 0) (fun _ => 0) vn nn inits in
+  snd r = None /\ vn v = Some nm /\ (forall u, In u others -> vn u <> Some nm) /\ f_vn (fst r) v <> Some nm.
+Proof.
+  exists wit_shared_main, [wit_shared_func], wit_shared_vn, wit_shared_nn, wit_shared_inits, [0; 1], 2, s_x1.
+  exact fix_keeps_unique_shared_refuted.
+Qed.
+Print Assumptions C15_fix_keeps_unique_shared_refuted.
+
 (* the witness that refuted it before 25cf9b5 *)
 Theorem C15_fix_keeps_unique_witness_fixed :
   let r := name_fix_pass wit_keep_graph [] (fun _ => 0) (fun _ => 0) wit_keep_vn (fun _ => None) [] in
